@@ -53,6 +53,9 @@ def run(tier):
              ["create", "destroy", "malloc", "register", "unregister", "xlate"], "reset 3 1 0"),
             ("E4", ["s1", "s2", "s3"], ["f1"], [], 1, [1], 1,
              ["create", "destroy", "malloc", "free", "xlate", "invoke"], "reset 3 1 0")]
+    # owners that outlive their incarnation next to owners of the new one (same function)
+    cfgs.append(("E5", ["s1"], ["f1"], ["o1", "o2"], 2, [1], 2,
+                 ["create", "destroy", "register", "unregister", "odestroy", "probe"], "reset 1 2 0"))
     if thorough:
         cfgs.append(("E1", ["s1", "s2"], ["f1"], ["o1"], 1, [1, 2], 2, LIFE, "reset 2 1 0"))
     sets = []
@@ -64,7 +67,7 @@ def run(tier):
         edges, init = m
         n_edges += len(edges)
         sets.append((hdr, vp.cover_walks(edges, init, maxlen=300)))
-    lines, expected = sx.walks_to_lines(sets)
+    lines, expected = sx.walks_to_lines(sets, observe=True)
     n_model_lines = len(lines)
     for _ in range(300 if thorough else 60):
         h = random_history(rng, 70)
@@ -78,6 +81,11 @@ def run(tier):
     nlines = [("reset %s 64 0" % l.split()[1]) if l.startswith("reset") else l for l in lines]
     nevents, ntpath = sx.replay(drv["sbx_noop"], wd, "noop", nlines)
     bad += sx.validate(chk, "Trace_Sbx", ntpath, nevents, nlines, "noop")
+    # dylib backend: the same script; incarnations are created from two different libraries
+    ddrv, dlibs = sx.dylib_driver()
+    devents, dtpath = sx.replay(ddrv, wd, "dylib", nlines, dlibs)
+    bad += sx.validate(chk, "Trace_Sbx", dtpath, devents, nlines, "dylib")
+    nevents = nevents + devents
     for b in bad:
         chk.violation("[%s backend] event %d outside the C14 Contract: %s" % (b["backend"], b["index"], b["event"]),
                       {"backend": b["backend"], "walk": b["walk"], "event": b["event"]})
